@@ -16,8 +16,8 @@ func init() {
 		Run: runC29,
 		Decided: "the interpreter and the expansion code never store into a syntax tree they were given: every store to a field of a syntax node, every element store or append on a slice of nodes, " +
 			"and every call of a syntax mutator (SplitBraces, Simplify) acts on a copy or literal created in the same activation; callbacks are covered by showing that every invocation hands them " +
-			"a fresh node (R29a); the Environ given through the Env option is only read: it flows into Get/Each calls and into the parent link of non-function overlays, and nothing asserts it to a WriteEnviron (R29b).",
-		NotDecided:  "writes performed by user-supplied handlers; deep immutability of values reachable from the Environ's variables is C27's R27a.",
+			"a fresh node (R29a); the Environ given through the Env option is only read: it flows into Get/Each calls and into the parent link of non-function overlays, and nothing asserts it to a WriteEnviron (R29b); the lists and maps inside variables obtained from it are never written in place (R27a, shared with C27).",
+		NotDecided:  "writes performed by user-supplied handlers.",
 		Assumptions: []string{"no reflection/unsafe in interp, expand, shell (checked)"},
 		Controls:    c29Controls,
 		Matrix:      true,
@@ -54,6 +54,8 @@ func isSyntaxType(t types.Type, syn *types.Package) bool {
 func runC29(p *Prog, r *Result) {
 	r.Rule("R29a", "stores into syntax nodes, their slices, and calls of syntax mutators only on storage created in the same activation", 10)
 	r.Rule("R29b", "Runner.Env is only read: Get/Each, parent of non-function overlays; never asserted to WriteEnviron", 3)
+	r.Rule("R27a", "writes to variable storage only through storage created in the same activation (shared with C27: the lists and maps of variables that come from Env are storage the caller owns)", 60)
+	checkOwnership(p, r, "R27a", false)
 	prog := p.SSA()
 	synPkg := p.Pkg("syntax")
 	if synPkg == nil {
